@@ -51,8 +51,8 @@ package controllerv1
 // written only right after a complete element, and an element only right after the
 // opening bracket or a separator - wherever the batch boundaries fall, also after
 // empty batches.
-//@ func (*TempoController).Search [C15]
-//@   flag checks=-assert,-index
+//@ func (*TempoController).Search [C12,C15]
+//@   flag checks=-assert,-index,+nilchan
 //@   at ResponseWriter).Write$ separator-follows-an-element: len(arg0) == 1 && int(arg0[0]) == 44 ==> respLast != 91 && respLast != 44
 //@   at ResponseWriter).Write$ trace-follows-bracket-or-separator: aliases(arg0, strTrace) && len(arg0) == len(strTrace) ==> respLast == 91 || respLast == 44
 //@   at ResponseWriter).Write$ found-trace-follows-bracket-or-separator: aliases(arg0, bTrace) && len(arg0) == len(bTrace) ==> respLast == 91 || respLast == 44
@@ -76,8 +76,8 @@ package controllerv1
 // Tempo tag names and tag values: one JSON array of JSON strings. Every element is
 // the JSON string literal of the tag (Go's strconv.Quote is not JSON: \x01, \a, \v
 // and \U escapes are rejected by every JSON parser), separators as in Search.
-//@ func (*TempoController).Tags [C15]
-//@   flag checks=-assert,-index
+//@ func (*TempoController).Tags [C12,C15]
+//@   flag checks=-assert,-index,+nilchan
 //@   at ResponseWriter).Write$ separator-follows-an-element: len(arg0) == 1 && int(arg0[0]) == 44 ==> respLast != 91 && respLast != 44
 //@   at ResponseWriter).Write$ element-is-a-json-string: len(arg0) > 0 && !(len(arg0) == 1 && int(arg0[0]) == 44) && int(arg0[0]) != 123 && int(arg0[0]) != 93 ==> str(arg0) == jsonStr(tag)
 //@   at ResponseWriter).Write$ element-follows-bracket-or-separator: len(arg0) > 0 && !(len(arg0) == 1 && int(arg0[0]) == 44) && int(arg0[0]) != 123 && int(arg0[0]) != 93 ==> respLast == 91 || respLast == 44
@@ -87,8 +87,8 @@ package controllerv1
 //@     invariant i == 0 ==> respLast == 91
 //@     invariant i != 0 ==> respLast != 91 && respLast != 44
 //@     modifies respLast
-//@ func (*TempoController).Values [C15]
-//@   flag checks=-assert,-index
+//@ func (*TempoController).Values [C12,C15]
+//@   flag checks=-assert,-index,+nilchan
 //@   at ResponseWriter).Write$ separator-follows-an-element: len(arg0) == 1 && int(arg0[0]) == 44 ==> respLast != 91 && respLast != 44
 //@   at ResponseWriter).Write$ element-is-a-json-string: len(arg0) > 0 && !(len(arg0) == 1 && int(arg0[0]) == 44) && int(arg0[0]) != 123 && int(arg0[0]) != 93 ==> str(arg0) == jsonStr(val)
 //@   at ResponseWriter).Write$ element-follows-bracket-or-separator: len(arg0) > 0 && !(len(arg0) == 1 && int(arg0[0]) == 44) && int(arg0[0]) != 123 && int(arg0[0]) != 93 ==> respLast == 91 || respLast == 44
@@ -113,6 +113,12 @@ package controllerv1
 //@   modifies nothing
 //@   ensures isnil(result1) ==> result0 != nil
 //@ iface (github.com/metrico/qryn/reader/model.ITempoService).ValuesV2(ctx, key, query, from, to, limit)
+//@   modifies nothing
+//@   ensures isnil(result1) ==> result0 != nil
+//@ iface (github.com/metrico/qryn/reader/model.ITempoService).Search(ctx, tags, minDurationNS, maxDurationNS, limit, fromNS, toNS)
+//@   modifies nothing
+//@   ensures isnil(result1) ==> result0 != nil
+//@ iface (github.com/metrico/qryn/reader/model.ITempoService).SearchTraceQL(ctx, q, limit, from, to)
 //@   modifies nothing
 //@   ensures isnil(result1) ==> result0 != nil
 //@ func (*TempoController).TagsV2 [C12]
